@@ -22,6 +22,7 @@ BOUND = ("dimension 1..4; two start data sets per case with 0..20 samples each (
          "applied to empty sets and revert_scaling only to scaled sets (outside the property); exceptions of sample-moving operations "
          "with an EMPTY operand are tolerated if nothing is modified")
 BOUND += "; fault / magnitude additions: three directed sequences with scaling factors 1e-9 / 1e9"
+BOUND += "; round-10 additions: split_labels_join also with a fresh empty accumulator in front of / behind the pieces"
 RULE = BOUND + ("; one case = (two start sets, operation list with all parameters and the numpy seed for shuffle); non-trivial = at least "
                 "one start set is non-empty and the list is non-empty")
 CLAUSES = {
